@@ -223,68 +223,44 @@ def r2_r3_summaries(facts, rep):
                         opc = u[2][0] if u[2] else None
                         rep.ob("C02-R2", "%s:%s:err-names-operator" % (fn, cls), opc == Const("+" if fn == "add" else "-"),
                                "the error names the operator %r" % (opc,), o.site, nontrivial=False)
-    # the cast arm of eval::eval
-    body = anchor(rep, "C02-R2", facts, "eval::eval")
-    if body is None:
+    # the `to` arm: summary of eval::eval on OPERATION [x to u] (helpers followed; the unit parser, the sub-evaluation and
+    # Compound::factor are effects)
+    if anchor(rep, "C02-R2", facts, "eval::eval") is None:
         return
-    fc = flow.calls_named(body, lambda n: n == "compound::Compound::factor")
-    rep.floor("C02-R2", "factor calls in eval::eval (the `to` arm)", len(fc), 1)
-    cfg = body.cfg
-    for bid, t, sp, _ in fc:
-        e = flow.ok_edge(body, bid)
-        if not rep.ob("C02-R2", "cast:result-switch", e is not None, "the result of factor() is matched", body.site(sp)):
+    rep.rule("C02-R5", "a cast yields the target unit: the result of `x to u` is the value of x converted by "
+                       "target.factor(&x.unit, &mut x.value) with the unit parsed from the right-hand side")
+    from . import evalnode
+    try:
+        dom, res = evalnode.fold_summary(facts, ["OP_CAST"])
+    except core.Undecided as e:
+        rep.ob("C02-R2", "cast:summary", False, "undecided: %s" % e)
+        return
+    n_ok = 0
+    seen = set()
+    for o, u, ev in res:
+        fv = [e for e in ev if e[0] == "factor"]
+        verdict = fv[-1][1] if fv else None
+        if u is None:
+            rep.ob("C02-R2", "cast:panic", False, "the `to` arm can end in %s" % o.kind, o.site)
             continue
-        sw, okt, fails = e
-        # inside Ok: switch on the bool payload
-        bsw = None
-        for x in sorted(cfg.reachable_from(okt)):
-            tt = body.blocks[x]["term"]["t"]
-            if tt["k"] == "switch" and tt.get("discr_ty") == "bool" and cfg.dominates(okt, x):
-                ls = flow.slice_back(body, tt["discr"])
-                if any(l[0] == "call" and l[1] == "compound::Compound::factor" for l in ls):
-                    bsw = x
-                    break
-        if not rep.ob("C02-R2", "cast:bool-switch", bsw is not None, "the boolean payload of Ok(..) is tested", body.site(sp)):
-            continue
-        m, other = cfg.switch_targets(bsw)
-        false_t, true_t = m.get(0), other
-        # constructions of the new accumulator (DelayedEval::Numeric) must be only on the true side
-        accs = [blk["id"] for blk, i, s in body.stmts() if s["rv"]["k"] == "aggregate" and s["rv"]["kind"].get("path") == "eval::DelayedEval"
-                and s["rv"]["kind"].get("variant") == "Numeric" and blk["id"] in cfg.reachable_from(bid)
-                and any(l[0] == "call" and l[1] == "numeric::Numeric::new" for l in flow.slice_back(body, s["rv"]["ops"][0]))]
-        good = bool(accs) and all(a in cfg.blocks_only_via_edge(bsw, true_t) or a == true_t for a in accs)
-        rep.ob("C02-R2", "cast:number-only-on-true", good, "the converted accumulator is built only on the Ok(true) edge (%d site(s))" % len(accs),
-               body.site(sp))
-        # false and Err edges reach only Err returns (no way back into the loop)
-        for nm, start in [("false", false_t)] + [("err", f) for f in fails]:
-            if start is None or body.blocks[start]["term"]["t"]["k"] == "unreachable":
-                continue
-            region = cfg.reachable_from(start)
-            errs = [blk["id"] for blk, i, s in body.stmts() if blk["id"] in region and s["place"]["local"] == 0
-                    and s["rv"]["k"] == "aggregate" and s["rv"]["kind"].get("variant") == "Err"]
-            oks = [a for a in accs if a in region]
-            evals = [x for x in region if body.blocks[x]["term"]["t"]["k"] == "call" and F.callee(body.blocks[x]["term"]["t"]) in ("eval::eval", "numeric::Numeric::new")]
-            rep.ob("C02-R2", "cast:%s-edge-is-error" % nm, bool(errs) and not oks and not evals,
-                   "from the %s edge: %d Err construction(s), %d number construction(s), %d further evaluation(s)" % (nm, len(errs), len(oks), len(evals)),
-                   body.site(sp))
-        # R5: the new accumulator carries the target unit and the converted left value
-        for blk, i, s in body.stmts():
-            if s["rv"]["k"] == "aggregate" and s["rv"]["kind"].get("path") == "eval::DelayedEval" and blk["id"] in accs:
-                pass
-        for b2, t2, sp2, nm2 in body.calls(lambda n: n == "numeric::Numeric::new"):
-            if b2["id"] in cfg.blocks_only_via_edge(bsw, true_t) | {true_t}:
-                vsrc = {l[1] for l in flow.slice_back(body, t2["args"][0]) if l[0] == "call"}
-                usrc = {l[1] for l in flow.slice_back(body, t2["args"][1]) if l[0] == "call"}
-                rep.rule("C02-R5", "a cast yields the target unit: the accumulator after `to` is Numeric::new(value of the left "
-                                   "operand converted in place by factor, the unit parsed from the right-hand side)")
-                rep.ob("C02-R5", "cast:result", vsrc == {"eval::DelayedEval::<'_>::eval"} and usrc == {"eval::unit"},
-                       "after a cast the accumulator is Numeric::new(value from %s, unit from %s)" % (sorted(vsrc), sorted(usrc)), body.site(sp2))
-        # factor is asked with (target, source unit, source value)
-        a0 = flow.slice_back(body, t["args"][0])
-        a1 = flow.field_origins(body, t["args"][1])
-        a2 = flow.field_origins(body, t["args"][2])
-        rep.ob("C02-R5", "cast:factor-arguments", any(l[0] == "call" and l[1] == "eval::unit" for l in a0) and a1 == {("unit",)} and a2 == {("value",)},
-               "factor(target from eval::unit, &lhs.%s, &mut lhs.%s)" % (sorted(a1), sorted(a2)), body.site(sp))
+        if u[0] == "ok":
+            n_ok += 1
+            rep.ob("C02-R2", "cast:number-only-on-true", verdict == "commensurable" and len(fv) == 1,
+                   "`x to u` yields a number where factor's verdict was %s" % verdict, o.site)
+            val_ok = repr(u[1]) == "conv(child1.value, target3, child1.unit)"
+            unit_ok = repr(E.unit_sym(u[2])) == "target3"
+            rep.ob("C02-R5", "cast:result", val_ok and unit_ok,
+                   "after a cast the result is (%r, %r); specified (x.value converted from x.unit into the target, the target unit)" % (u[1], E.unit_sym(u[2])), o.site)
+        elif u[0] == "err" and verdict in ("incommensurable", "error"):
+            want = {"incommensurable": "IllegalCast", "error": "ConversionNotPossible"}[verdict]
+            if verdict not in seen:
+                seen.add(verdict)
+                rep.ob("C02-R2", "cast:%s-edge-is-error" % ("false" if verdict == "incommensurable" else "err"), u[1] == want,
+                       "factor verdict %s yields Err(%s)" % (verdict, u[1]), o.site)
+        elif verdict == "commensurable":
+            rep.ob("C02-R2", "cast:commensurable-fails", False, "a commensurable cast ends in %r" % (u,), o.site)
+    rep.ob("C02-R2", "cast:has-ok-path", n_ok >= 1 and seen == {"incommensurable", "error"},
+           "%d successful path(s); verdicts seen on error paths: %s" % (n_ok, sorted(seen)))
 
 
 def powers_value(entries):
